@@ -235,7 +235,15 @@ func (e *env) term(x ast.Expr) (string, error) {
 			}
 			return "Sov(zz64(" + args[0] + "))", nil
 		case "google.golang.org/protobuf/encoding/protowire.EncodeZigZag":
-			return "zz(" + strings.TrimSuffix(strings.TrimPrefix(args[0], "i64("), ")") + ")", nil
+			// EncodeZigZag(int64(v)) of a 32-bit v equals the 32-bit zig-zag of v zero-extended (|v| < 2^31)
+			a := args[0]
+			for _, pre := range []string{"i64(", "conv[int64](", "sx("} {
+				if strings.HasPrefix(a, pre) && strings.HasSuffix(a, ")") {
+					a = a[len(pre) : len(a)-1]
+					break
+				}
+			}
+			return "zz(" + a + ")", nil
 		case "google.golang.org/protobuf/proto.MarshalOptions.Size":
 			if sel, ok := t.Fun.(*ast.SelectorExpr); ok {
 				recv, err := e.term(sel.X)
